@@ -86,8 +86,8 @@ def run(chk):
             Xf = np.asarray(X, dtype=float)
             lo_, hi_ = float(Xf.min()), float(Xf.max())
             kq = 200.0 / max(hi_ - lo_, 1e-300)
-            for dt in (np.uint8, np.int16, np.float32):
-                Xq = (np.clip(np.rint((Xf - lo_) * kq + 20.0), 0, 255).astype(dt) if dt is not np.float32 else ((Xf - lo_) * kq + 20.0).astype(dt))
+            for dt in (np.uint8, np.int16, np.float32, np.float16):
+                Xq = (np.clip(np.rint((Xf - lo_) * kq + 20.0), 0, 255).astype(dt) if dt not in (np.float32, np.float16) else ((Xf - lo_) * kq + 20.0).astype(dt))
                 Xq64 = Xq.astype(np.float64)
                 kmq = KMeansMachine(n_clusters=K)
                 kmq.centroids_ = (np.asarray(cents, dtype=float) - lo_) * kq + 20.0
@@ -104,19 +104,57 @@ def run(chk):
                 chk.count(1, key=("dtype", np.dtype(dt).name))
                 labq = np.asarray(kmq.predict(Xq64))
                 refv = np.array([Xq64[labq == k].var(axis=0) if np.any(labq == k) else np.zeros(D) for k in range(K)])
-                # integer samples are exact in binary64; single-precision samples are summed in single precision (results carry the input's precision)
+                # integer, half- and single-precision samples are exact in binary64 and all sums are formed in binary64 (DESIGN 9.4: D16, D17):
+                # the results are those of the float64 copy of the same values up to binary64 rounding
                 # the same samples in a Dask array of that dtype: distances and labels are those of the values (fractional centroids are not cast to it)
-                rd_ = 1e-12 if dt is not np.float32 else 1e-5
+                rd_ = 1e-12 if dt not in (np.float32, np.float16) else 1e-5
                 if not (np.allclose(dqd, dq64, rtol=rd_, atol=rd_) and (np.array_equal(lqd, labq) or not kt.margin_ok(kmq.centroids_, Xq64, rel=1e-4))):
                     chk.fail("on a Dask array of %s samples transform / predict are not the distances / labels of the sample values (largest distance error %.3g)"
                              % (np.dtype(dt).name, float(np.abs(dqd - dq64).max())), dict(ctx, dtype=np.dtype(dt).name, Xq=hexlist(Xq64), entry="transform/predict on a Dask array"))
-                tolq = 64 * eps * 255.0 ** 2 if dt is not np.float32 else 64 * float(np.finfo(np.float32).eps) * 255.0 ** 2
-                rq = 1e-9 if dt is not np.float32 else 1e-4
+                tolq = 64 * eps * 255.0 ** 2
+                rq = 1e-9
                 if not (np.allclose(np.asarray(vq), refv, rtol=rq, atol=tolq) and np.allclose(np.asarray(vq), np.asarray(vq64), rtol=rq, atol=tolq)
                         and np.allclose(np.asarray(vqd), np.asarray(vq64), rtol=rq, atol=tolq) and np.allclose(np.asarray(wq), np.asarray(wq64))
                         and np.allclose(np.asarray(wqd), np.asarray(wq64)) and np.allclose(dq, dq64, rtol=1e-12, atol=0) and np.all(np.asarray(vq) >= -tolq)):
                     chk.fail("on %s samples the cluster variances / weights / distances are not those of the sample values (variances %s, expected %s)"
                              % (np.dtype(dt).name, np.asarray(vq).tolist(), refv.tolist()), dict(ctx, dtype=np.dtype(dt).name, Xq=hexlist(Xq64)))
+        # centroids of integer dtype (assigned by hand, or an integer initial array with max_iter=0) and fractional samples: variances / weights /
+        # distances are those obtained with the same centroid values as floats
+        if i % 3 == 2 and offset == 0.0:        # (no common offset: sum x^2/n - mean^2 is well conditioned, so the routes agree to rounding)
+            ci_ = np.rint(np.asarray(cents, dtype=float) * 2.0).astype(np.int64)
+            Xi_ = np.asarray(X, dtype=float) * 2.0
+            kmi_, kmf_ = KMeansMachine(n_clusters=K), KMeansMachine(n_clusters=K)
+            kmi_.centroids_, kmf_.centroids_ = ci_, ci_.astype(float)
+            try:
+                vi_, wi_ = kmi_.get_variances_and_weights_for_each_cluster(Xi_)
+                vf_, wf_ = kmf_.get_variances_and_weights_for_each_cluster(Xi_)
+                vid_, _wd = kmi_.get_variances_and_weights_for_each_cluster(da.from_array(Xi_, chunks=(max(1, N // 2), D)))
+                chk.count(1, key=("integer-typed centroids",))
+                if not (np.allclose(np.asarray(vi_), np.asarray(vf_), rtol=1e-9, atol=1e-9) and np.allclose(np.asarray(wi_), np.asarray(wf_)) and np.allclose(np.asarray(vid_), np.asarray(vf_), rtol=1e-9, atol=1e-9)
+                        and np.allclose(np.asarray(kmi_.transform(Xi_)), np.asarray(kmf_.transform(Xi_)), rtol=1e-12, atol=0)):
+                    chk.fail("with integer-typed centroids %s the cluster variances %s differ from those with the same centroid values as floats %s"
+                             % (ci_.tolist(), np.asarray(vi_).tolist(), np.asarray(vf_).tolist()), dict(ctx, centroids_int=ci_.tolist(), X2=hexlist(Xi_)))
+            except Exception as e:
+                chk.fail("k-means statistics with integer-typed centroids raise %r" % (e,), dict(ctx, centroids_int=ci_.tolist()))
+        # more than 2**20 centroid-sample pairs in ONE call, at a large common offset: labels and distances are those of the same samples scored in
+        # small batches (the distance is formed from differences, whatever the size of the call)
+        if i == 1 or (chk.tier == "thorough" and i % 100 == 1):
+            gL = gen.nprng(r)
+            KL, NL, offL = 16, 70001, 1e8
+            cL = gL.normal(size=(KL, 2)) * 3.0 + offL
+            XL = cL[gL.integers(0, KL, size=NL)] + gL.normal(size=(NL, 2)) * 0.3
+            kmL = KMeansMachine(n_clusters=KL)
+            kmL.centroids_ = cL.copy()
+            lab_big = np.asarray(kmL.predict(XL))
+            d_big = np.asarray(kmL.transform(XL))
+            lab_small = np.concatenate([np.asarray(kmL.predict(XL[a_:a_ + 5000])) for a_ in range(0, NL, 5000)])
+            d_small = np.concatenate([np.asarray(kmL.transform(XL[a_:a_ + 5000])) for a_ in range(0, NL, 5000)], axis=1)
+            chk.count(1, key=("one large call vs small batches",))
+            nd_ = int(np.sum(lab_big != lab_small))
+            if nd_ or not np.allclose(d_big, d_small, rtol=1e-9, atol=1e-9):
+                chk.fail("%d x %d centroid-sample pairs at a common offset %g: one call gives other labels for %d samples / other distances (largest difference %.3g) than the same samples in batches of 5000"
+                         % (KL, NL, offL, nd_, float(np.abs(d_big - d_small).max())),
+                         {"K": KL, "N": NL, "offset": offL, "data": "16 clusters (sd 0.3) around normal(0, 3) + 1e8, numpy default_rng stream of this run"})
         # more than 2**16 rows in one call / one block: every row is labelled (weights = fractions, variances = biased variances of ALL members)
         if i == 0 or (chk.tier == "thorough" and i % 100 == 0):
             gbig = gen.nprng(r)
